@@ -11,6 +11,9 @@ namespace Model.Phy
 @[simp] theorem bind_io {α β : Type} (r : Io) (k : Bytes → Prog α) (f : α → Prog β) :
     Prog.bind (.io r k) f = .io r (fun bs => Prog.bind (k bs) f) := rfl
 
+@[simp] theorem bind_ioE {α β : Type} (r : Io) (k : Option Bytes → Prog α) (f : α → Prog β) :
+    Prog.bind (.ioE r k) f = .ioE r (fun x => Prog.bind (k x) f) := rfl
+
 @[simp] theorem trace_ret {α : Type} (a : α) (c : Chip) : trace (.ret a) c = ([], c, .ok a) := rfl
 @[simp] theorem trace_fail {α : Type} (e : RadioError) (c : Chip) : trace (.fail e : Prog α) c = ([], c, .err e) := rfl
 @[simp] theorem trace_panic {α : Type} (s : String) (c : Chip) : trace (.panic s : Prog α) c = ([], c, .panic s) := rfl
@@ -18,6 +21,17 @@ namespace Model.Phy
     trace (.io (.spi w r) k) c =
       ((w ++ List.replicate r 0) :: (trace (k (c.transact w r).1) (c.transact w r).2).1,
        (trace (k (c.transact w r).1) (c.transact w r).2).2) := rfl
+@[simp] theorem traceE_spi {α : Type} (w : Bytes) (r : Nat) (k : Option Bytes → Prog α) (c : Chip) :
+    trace (.ioE (.spi w r) k) c =
+      ((w ++ List.replicate r 0) :: (trace (k (some (c.transact w r).1)) (c.transact w r).2).1,
+       (trace (k (some (c.transact w r).1)) (c.transact w r).2).2) := rfl
+@[simp] theorem traceE_busy {α : Type} (k : Option Bytes → Prog α) (c : Chip) : trace (.ioE .busy k) c = trace (k (some [])) c := rfl
+@[simp] theorem traceE_irq {α : Type} (k : Option Bytes → Prog α) (c : Chip) : trace (.ioE .irq k) c = trace (k (some [])) c := rfl
+@[simp] theorem traceE_rfRx {α : Type} (k : Option Bytes → Prog α) (c : Chip) : trace (.ioE .rfRx k) c = trace (k (some [])) c := rfl
+@[simp] theorem traceE_rfTx {α : Type} (k : Option Bytes → Prog α) (c : Chip) : trace (.ioE .rfTx k) c = trace (k (some [])) c := rfl
+@[simp] theorem traceE_rfOff {α : Type} (k : Option Bytes → Prog α) (c : Chip) : trace (.ioE .rfOff k) c = trace (k (some [])) c := rfl
+@[simp] theorem traceE_reset {α : Type} (k : Option Bytes → Prog α) (c : Chip) : trace (.ioE .reset k) c = trace (k (some [])) c := rfl
+@[simp] theorem traceE_delay {α : Type} (ms : Nat) (k : Option Bytes → Prog α) (c : Chip) : trace (.ioE (.delay ms) k) c = trace (k (some [])) c := rfl
 @[simp] theorem trace_busy {α : Type} (k : Bytes → Prog α) (c : Chip) : trace (.io .busy k) c = trace (k []) c := rfl
 @[simp] theorem trace_irq {α : Type} (k : Bytes → Prog α) (c : Chip) : trace (.io .irq k) c = trace (k []) c := rfl
 @[simp] theorem trace_rfRx {α : Type} (k : Bytes → Prog α) (c : Chip) : trace (.io .rfRx k) c = trace (k []) c := rfl
@@ -78,7 +92,7 @@ theorem run_eq_trace {α : Type} (p : Prog α) (w : World) (hf : w.fault = none)
       simp only [reduceCtorEq, false_and, if_false] at *
       obtain ⟨h1, h2, h3, h4, h5⟩ := this
       refine ⟨h1, h2, ?_, h4, h5⟩
-      rw [h3]; simp [mosi_append, mosi]
+      rw [h3]; simp [mosi]
     | busy =>
       have := ih [] { chip := chip, log := log ++ [⟨.busy, .done⟩], step := step + 1, fault := none, pendAt := none } rfl rfl
       simpa [run, trace, mosi_append, mosi] using this
@@ -97,5 +111,86 @@ theorem run_eq_trace {α : Type} (p : Prog α) (w : World) (hf : w.fault = none)
     | reset =>
       have := ih [] { chip := chip, log := log ++ [⟨.reset, .done⟩], step := step + 1, fault := none, pendAt := none } rfl rfl
       simpa [run, trace, mosi_append, mosi] using this
+
+  | ioE req k ih =>
+    obtain ⟨chip, log, step, fault, pendAt⟩ := w
+    simp only at hf hp
+    subst hf hp
+    cases req with
+    | delay ms =>
+      have := ih (some []) { chip := chip, log := log ++ [⟨.delay ms, .done⟩], step := step, fault := none, pendAt := none } rfl rfl
+      simpa [run, trace, mosi_append, mosi] using this
+    | spi wr r =>
+      have := ih (some (chip.transact wr r).1)
+        { chip := (chip.transact wr r).2, log := log ++ [⟨.spi wr r, .done⟩], step := step + 1, fault := none, pendAt := none } rfl rfl
+      simp only [run, trace]
+      simp only [reduceCtorEq, false_and, if_false] at *
+      obtain ⟨h1, h2, h3, h4, h5⟩ := this
+      refine ⟨h1, h2, ?_, h4, h5⟩
+      rw [h3]; simp [mosi]
+    | busy =>
+      have := ih (some []) { chip := chip, log := log ++ [⟨.busy, .done⟩], step := step + 1, fault := none, pendAt := none } rfl rfl
+      simpa [run, trace, mosi_append, mosi] using this
+    | irq =>
+      have := ih (some []) { chip := chip, log := log ++ [⟨.irq, .done⟩], step := step + 1, fault := none, pendAt := none } rfl rfl
+      simpa [run, trace, mosi_append, mosi] using this
+    | rfRx =>
+      have := ih (some []) { chip := chip, log := log ++ [⟨.rfRx, .done⟩], step := step + 1, fault := none, pendAt := none } rfl rfl
+      simpa [run, trace, mosi_append, mosi] using this
+    | rfTx =>
+      have := ih (some []) { chip := chip, log := log ++ [⟨.rfTx, .done⟩], step := step + 1, fault := none, pendAt := none } rfl rfl
+      simpa [run, trace, mosi_append, mosi] using this
+    | rfOff =>
+      have := ih (some []) { chip := chip, log := log ++ [⟨.rfOff, .done⟩], step := step + 1, fault := none, pendAt := none } rfl rfl
+      simpa [run, trace, mosi_append, mosi] using this
+    | reset =>
+      have := ih (some []) { chip := chip, log := log ++ [⟨.reset, .done⟩], step := step + 1, fault := none, pendAt := none } rfl rfl
+      simpa [run, trace, mosi_append, mosi] using this
+
+
+end Model.Phy
+
+namespace Model.Phy
+
+/-- `?`-sequencing commutes with the interpreter -/
+theorem run_bind {α β : Type} (p : Prog α) (f : α → Prog β) (w : World) :
+    run (Prog.bind p f) w =
+      match run p w with
+      | (.ok a, w') => run (f a) w'
+      | (.err e, w') => (.err e, w')
+      | (.panic s, w') => (.panic s, w')
+      | (.dropped, w') => (.dropped, w') := by
+  induction p generalizing w with
+  | ret a => simp [Prog.bind, run]
+  | fail e => simp [Prog.bind, run]
+  | panic s => simp [Prog.bind, run]
+  | io req k ih =>
+    cases req <;> simp only [Prog.bind, run] <;> (repeat' split) <;> simp_all
+  | ioE req k ih =>
+    cases req <;> simp only [Prog.bind, run] <;> (repeat' split) <;> simp_all
+
+theorem run_busy (w : World) :
+    run (Prog.req .busy) w =
+      if w.fault = some w.step then (.err .Busy, { w with log := w.log ++ [⟨.busy, .failed⟩], step := w.step + 1 })
+      else (.ok (), { w with log := w.log ++ [⟨.busy, .done⟩], step := w.step + 1 }) := by
+  simp [Prog.req, run]; split <;> simp [errOf]
+
+theorem run_rfOff (w : World) :
+    run (Prog.req .rfOff) w =
+      if w.fault = some w.step then (.err .RfSwitchRx, { w with log := w.log ++ [⟨.rfOff, .failed⟩], step := w.step + 1 })
+      else (.ok (), { w with log := w.log ++ [⟨.rfOff, .done⟩], step := w.step + 1 }) := by
+  simp [Prog.req, run]; split <;> simp [errOf]
+
+theorem run_intfWrite (bs : Bytes) (w : World) :
+    run (intfWrite bs) w =
+      if w.fault = some w.step then (.err .SPI, { w with log := w.log ++ [⟨.spi bs 0, .failed⟩], step := w.step + 1 })
+      else if w.fault = some (w.step + 1) then
+        (.err .Busy, { w with log := w.log ++ [⟨.spi bs 0, .done⟩, ⟨.busy, .failed⟩], step := w.step + 2, chip := (w.chip.transact bs 0).2 })
+      else (.ok (), { w with log := w.log ++ [⟨.spi bs 0, .done⟩, ⟨.busy, .done⟩], step := w.step + 2, chip := (w.chip.transact bs 0).2 }) := by
+  simp only [intfWrite, Prog.xfer, Prog.req, bind_eq, bind_io, bind_ret, Bool.false_eq_true, if_false]
+  simp only [run, reduceCtorEq, false_and, if_false]
+  split
+  · simp [errOf]
+  · simp [errOf, List.append_assoc]
 
 end Model.Phy
